@@ -96,46 +96,83 @@ theorem createFrame_masked_length (opcode : Nat) (data key : Bytes) (hk : key.le
 
 /-! ### running `_send_impl` -/
 
-/-- one `_send_impl(data)` call with what `os.urandom(4)` and `socket.send` do in it -/
+/-- one `_send_impl(data)` call with what `os.urandom(4)` and the raw `socket.send` do in it -/
 structure Call where
   data : Bytes
   key : Bytes
-  accept : Nat
+  out : SockSend
   deriving DecidableEq, Repr
 
 structure SendRun where
   st : SendSt
-  wire : Bytes          -- everything the raw socket accepted, in order
-  rets : List Nat       -- the return values
+  wire : Bytes            -- everything the raw socket accepted, in order
+  rets : List SendRes     -- how each call ended
   deriving DecidableEq, Repr
 
 def runSend : SendSt → List Call → SendRun
   | st, [] => { st := st, wire := [], rets := [] }
   | st, c :: cs =>
-    let r := sendImpl st c.data c.key c.accept
+    let r := sendImpl st c.data c.key c.out
     let rest := runSend r.1 cs
     { st := rest.st, wire := r.2.1 ++ rest.wire, rets := r.2.2 :: rest.rets }
 
-/-- the retry discipline of `_packet_write`: after a call that returned 0 the next call passes the same data -/
+/-- the caller has to come again with the same data: the call returned 0 or raised -/
+def SendRes.needsRetry : SendRes → Bool
+  | .ret 0 => true
+  | .ret _ => false
+  | .raised _ => true
+
+/-- the retry discipline of `_packet_write` (`appendleft` + return on 0 and on an exception): after a call that
+returned 0 or raised, the next call passes the same data -/
 def Disciplined : SendSt → List Call → Prop
   | _, [] => True
   | _, [_] => True
   | st, c :: c' :: cs =>
-    let r := sendImpl st c.data c.key c.accept
-    (r.2.2 = 0 → c'.data = c.data) ∧ Disciplined r.1 (c' :: cs)
+    let r := sendImpl st c.data c.key c.out
+    (r.2.2.needsRetry = true → c'.data = c.data) ∧ Disciplined r.1 (c' :: cs)
 
 instance decDisciplined : ∀ (st : SendSt) (cs : List Call), Decidable (Disciplined st cs)
   | _, [] => isTrue trivial
   | _, [_] => isTrue trivial
   | st, c :: c' :: cs =>
-    have : Decidable (Disciplined (sendImpl st c.data c.key c.accept).1 (c' :: cs)) := decDisciplined _ _
+    have : Decidable (Disciplined (sendImpl st c.data c.key c.out).1 (c' :: cs)) := decDisciplined _ _
     by unfold Disciplined; exact inferInstance
 
-/-- the byte-counting reference. `rem` = bytes of the current frame the socket has not taken yet. -/
+/-- bytes the raw socket takes out of `len` buffered ones: none when it raises -/
+def taken (out : SockSend) (len : Nat) : Nat :=
+  match out with
+  | .accept k => min k len
+  | .wouldBlock => 0
+  | .error => 0
+
+/-- how the call ends when `remAfter` bytes of the frame are still unsent and the frame carries `size` data bytes -/
+def outcome (out : SockSend) (remAfter size : Nat) : SendRes :=
+  match out with
+  | .accept _ => .ret (if remAfter = 0 then size else 0)
+  | .wouldBlock => .raised true
+  | .error => .raised false
+
+theorem taken_le (out : SockSend) (len : Nat) : taken out len ≤ len := by
+  cases out <;> simp [taken]; exact Nat.min_le_right _ _
+
+/-- `sendImpl` in uniform shape: `B`, `R` = buffer and remembered size after the frame was (possibly) created -/
+theorem sendImpl_eq (st : SendSt) (data key : Bytes) (out : SockSend) :
+    sendImpl st data key out =
+      let B := if st.sendbuffer.length = 0 then st.sendbuffer ++ createFrame 2 data key 1 else st.sendbuffer
+      let R := if st.sendbuffer.length = 0 then data.length else st.requestedSize
+      ({ sendbuffer := B.drop (taken out B.length), requestedSize := R }, B.take (taken out B.length),
+        outcome out (B.drop (taken out B.length)).length R) := by
+  by_cases he : st.sendbuffer.length = 0
+  · have hnil : st.sendbuffer = [] := List.eq_nil_of_length_eq_zero he
+    cases out <;> simp [sendImpl, taken, outcome, hnil]
+  · cases out <;> simp [sendImpl, taken, outcome, he]
+
+/-- the byte-counting reference. `rem` = bytes of the current frame the socket has not taken yet. A call starts the
+frame `createFrame 2 data key 1` iff `rem = 0` — also when the raw send then raises. -/
 structure RefRun where
   frames : List Bytes   -- the frames of the sends started, in order
   total : Nat           -- bytes accepted by the socket
-  rets : List Nat
+  rets : List SendRes
   rem : Nat             -- bytes of the last frame still to go
   deriving DecidableEq, Repr
 
@@ -144,11 +181,11 @@ def refRun : Nat → List Call → RefRun
   | rem, c :: cs =>
     let fr := createFrame 2 c.data c.key 1
     let rem1 := if rem = 0 then fr.length else rem
-    let k := min c.accept rem1
+    let k := taken c.out rem1
     let rest := refRun (rem1 - k) cs
     { frames := (if rem = 0 then [fr] else []) ++ rest.frames,
       total := k + rest.total,
-      rets := (if rem1 - k = 0 then c.data.length else 0) :: rest.rets,
+      rets := outcome c.out (rem1 - k) c.data.length :: rest.rets,
       rem := rest.rem }
 
 /-- generalised invariant: pending buffer `B` -/
@@ -165,23 +202,26 @@ theorem runSend_ref (cs : List Call) : ∀ (st : SendSt),
   | cons c cs ih =>
     intro st hJ hD
     -- the state after the frame was (possibly) created
-    have key : ∀ (B : Bytes) (R : Nat) (st0 : SendSt), st0 = { sendbuffer := B, requestedSize := R } →
-        R = c.data.length →
-        (sendImpl st c.data c.key c.accept).1 = { sendbuffer := B.drop (min c.accept B.length), requestedSize := R } →
-        (sendImpl st c.data c.key c.accept).2.1 = B.take (min c.accept B.length) →
-        (sendImpl st c.data c.key c.accept).2.2 = (if (B.drop (min c.accept B.length)).length = 0 then R else 0) →
+    have key : ∀ (B : Bytes) (R : Nat), R = c.data.length →
+        sendImpl st c.data c.key c.out =
+          ({ sendbuffer := B.drop (taken c.out B.length), requestedSize := R }, B.take (taken c.out B.length),
+            outcome c.out (B.drop (taken c.out B.length)).length R) →
         B = st.sendbuffer ++ (if st.sendbuffer.length = 0 then [createFrame 2 c.data c.key 1] else []).flatten →
         let r := runSend st (c :: cs)
         let s := refRun st.sendbuffer.length (c :: cs)
         r.wire = (st.sendbuffer ++ s.frames.flatten).take s.total ∧
         r.st.sendbuffer = (st.sendbuffer ++ s.frames.flatten).drop s.total ∧
         r.rets = s.rets ∧ r.st.sendbuffer.length = s.rem := by
-      intro B R st0 _ hR h1 h2 h3 hB
+      intro B R hR hS hB
+      have h1 : (sendImpl st c.data c.key c.out).1 =
+          { sendbuffer := B.drop (taken c.out B.length), requestedSize := R } := by rw [hS]
+      have h2 : (sendImpl st c.data c.key c.out).2.1 = B.take (taken c.out B.length) := by rw [hS]
+      have h3 : (sendImpl st c.data c.key c.out).2.2 = outcome c.out (B.drop (taken c.out B.length)).length R := by rw [hS]
       have hrem1 : (if st.sendbuffer.length = 0 then (createFrame 2 c.data c.key 1).length else st.sendbuffer.length) = B.length := by
         rw [hB]; split <;> simp_all
       -- discipline for the rest
-      have hJ' : ((sendImpl st c.data c.key c.accept).1.sendbuffer ≠ [] →
-          ∀ c' ∈ cs.head?, c'.data.length = (sendImpl st c.data c.key c.accept).1.requestedSize) := by
+      have hJ' : ((sendImpl st c.data c.key c.out).1.sendbuffer ≠ [] →
+          ∀ c' ∈ cs.head?, c'.data.length = (sendImpl st c.data c.key c.out).1.requestedSize) := by
         intro hne c' hc'
         cases cs with
         | nil => simp at hc'
@@ -191,11 +231,17 @@ theorem runSend_ref (cs : List Call) : ∀ (st : SendSt),
           rw [h3] at hd
           rw [h1] at hne ⊢
           simp only at hne ⊢
-          have : (B.drop (min c.accept B.length)).length ≠ 0 := by
+          have hne0 : (B.drop (taken c.out B.length)).length ≠ 0 := by
             intro h0; exact hne (List.eq_nil_of_length_eq_zero h0)
-          rw [if_neg this] at hd
-          rw [hd rfl, hR]
-      have hD' : Disciplined (sendImpl st c.data c.key c.accept).1 cs := by
+          have hgen : ∀ m, m ≠ 0 → (outcome c.out m R).needsRetry = true := by
+            intro m hm
+            cases c.out
+            · simp only [outcome, if_neg hm]; rfl
+            · rfl
+            · rfl
+          have hretry := hgen _ hne0
+          rw [hd hretry, hR]
+      have hD' : Disciplined (sendImpl st c.data c.key c.out).1 cs := by
         cases cs with
         | nil => trivial
         | cons c2 cs2 => exact hD.2
@@ -204,32 +250,30 @@ theorem runSend_ref (cs : List Call) : ∀ (st : SendSt),
       rw [h1] at ih'
       simp only at ih'
       rw [h1, h2, h3, hrem1]
-      have hlen : (B.drop (min c.accept B.length)).length = B.length - min c.accept B.length := by simp
+      have hmin : taken c.out B.length ≤ B.length := taken_le _ _
+      have hlen : (B.drop (taken c.out B.length)).length = B.length - taken c.out B.length := by simp
       rw [hlen] at ih'
       obtain ⟨i1, i2, i3, i4⟩ := ih'
-      have hmin : min c.accept B.length ≤ B.length := Nat.min_le_right _ _
       have hBB : st.sendbuffer ++ ((if st.sendbuffer.length = 0 then [createFrame 2 c.data c.key 1] else []) ++
-          (refRun (B.length - min c.accept B.length) cs).frames).flatten =
-          B ++ (refRun (B.length - min c.accept B.length) cs).frames.flatten := by
+          (refRun (B.length - taken c.out B.length) cs).frames).flatten =
+          B ++ (refRun (B.length - taken c.out B.length) cs).frames.flatten := by
         rw [hB]; simp
       refine ⟨?_, ?_, ?_, ?_⟩
       · rw [hBB, i1, List.take_add, List.take_append_of_le_length hmin, List.drop_append_of_le_length hmin]
       · rw [hBB, i2, ← List.drop_drop, List.drop_append_of_le_length hmin]
       · rw [i3, hlen, hR]
       · simpa using i4
+    have hS := sendImpl_eq st c.data c.key c.out
     by_cases he : st.sendbuffer.length = 0
     · have hnil : st.sendbuffer = [] := List.eq_nil_of_length_eq_zero he
-      refine key (createFrame 2 c.data c.key 1) c.data.length _ rfl rfl ?_ ?_ ?_ ?_
-      · simp [sendImpl, hnil]
-      · simp [sendImpl, hnil]
-      · simp [sendImpl, hnil]
+      refine key (createFrame 2 c.data c.key 1) c.data.length rfl ?_ ?_
+      · rw [hS]; simp [hnil]
       · simp [hnil]
     · have hne : st.sendbuffer ≠ [] := fun h => he (by simp [h])
       have hR := hJ hne c (by simp)
-      refine key st.sendbuffer st.requestedSize _ rfl hR.symm ?_ ?_ ?_ ?_
-      · simp [sendImpl, he]
-      · simp [sendImpl, he]
-      · simp [sendImpl, he]
+      simp only [he, if_false] at hS
+      refine key st.sendbuffer st.requestedSize hR.symm ?_ ?_
+      · rw [hS]
       · simp [he]
 
 /-- facts about the reference alone: the socket never takes more than was framed, and at most the last frame is incomplete -/
@@ -240,15 +284,15 @@ theorem refRun_total (cs : List Call) : ∀ rem,
   | cons c cs ih =>
     intro rem
     simp only [refRun]
-    have := ih ((if rem = 0 then (createFrame 2 c.data c.key 1).length else rem) - min c.accept (if rem = 0 then (createFrame 2 c.data c.key 1).length else rem))
+    have := ih ((if rem = 0 then (createFrame 2 c.data c.key 1).length else rem) - taken c.out (if rem = 0 then (createFrame 2 c.data c.key 1).length else rem))
     by_cases h : rem = 0
     · simp only [h, if_true] at this ⊢
       simp only [List.flatten_append, List.length_append, List.flatten_cons, List.flatten_nil, List.append_nil]
-      have := Nat.min_le_right c.accept (createFrame 2 c.data c.key 1).length
+      have := taken_le c.out (createFrame 2 c.data c.key 1).length
       omega
     · simp only [h, if_false] at this ⊢
       simp only [List.nil_append]
-      have := Nat.min_le_right c.accept rem
+      have := taken_le c.out rem
       omega
 
 theorem refRun_rem_le (cs : List Call) : ∀ rem,
@@ -260,9 +304,9 @@ theorem refRun_rem_le (cs : List Call) : ∀ rem,
     simp only [refRun]
     by_cases h : rem = 0
     · simp only [h, if_true]
-      have := ih ((createFrame 2 c.data c.key 1).length - min c.accept (createFrame 2 c.data c.key 1).length)
-      have hle := Nat.sub_le (createFrame 2 c.data c.key 1).length (min c.accept (createFrame 2 c.data c.key 1).length)
-      generalize (createFrame 2 c.data c.key 1).length - min c.accept (createFrame 2 c.data c.key 1).length = x at this hle
+      have := ih ((createFrame 2 c.data c.key 1).length - taken c.out (createFrame 2 c.data c.key 1).length)
+      have hle := Nat.sub_le (createFrame 2 c.data c.key 1).length (taken c.out (createFrame 2 c.data c.key 1).length)
+      generalize (createFrame 2 c.data c.key 1).length - taken c.out (createFrame 2 c.data c.key 1).length = x at this hle
       generalize refRun x cs = R at this
       cases hf : R.frames with
       | nil => rw [hf] at this; simp at this ⊢; omega
@@ -276,9 +320,9 @@ theorem refRun_rem_le (cs : List Call) : ∀ rem,
             rw [List.getLast?_append, hg]; rfl
           rw [hl]; exact this
     · simp only [h, if_false, List.nil_append]
-      have := ih (rem - min c.accept rem)
-      have hle := Nat.sub_le rem (min c.accept rem)
-      generalize rem - min c.accept rem = x at this hle
+      have := ih (rem - taken c.out rem)
+      have hle := Nat.sub_le rem (taken c.out rem)
+      generalize rem - taken c.out rem = x at this hle
       generalize refRun x cs = R at this
       cases hg : R.frames.getLast? with
       | none => rw [hg] at this; simp only at this ⊢; omega
